@@ -1,9 +1,11 @@
-import AfkakProps.Open.C19
 import Afkak.Monitor.C19
 import AfkakProofs.Producer.AccTrace
 import AfkakProofs.Producer.Stop
 import AfkakProofs.Producer.Sids
 import AfkakProofs.Producer.Once
+import AfkakProofs.Producer.StopTrace
+import AfkakProofs.Producer.Dispatch
+import AfkakProofs.Producer.Wait
 /-!
 # C19 — Batching thresholds, time limit and cancellation behave as documented
 Property theorems only.  Model: `Afkak/Producer.lean`; monitors: `Afkak/Monitor/C19.lean`.
@@ -16,6 +18,74 @@ open Afkak.Producer Afkak.Monitor.ProducerTrace Afkak.Monitor.C19
     of sends, cancels, dispatches and stop produced the queue; in particular zero when it is empty. -/
 theorem C19_accounting (cfg : Cfg) (evs : List Ev) : accounting cfg (traceOf cfg evs) = true :=
   accounting_model cfg evs
+
+/-- Dispatch exactly when it should — trace level, for EVERY event list: (i) after every step the producer
+    is never idle (`_batch_send_d is None`), not stopped, with a non-empty queue whose message count or
+    byte count is over its (non-zero) threshold - a threshold met while a batch is in flight takes effect
+    in the very step that resolves the batch; (ii) whenever a step takes the queue other than by the
+    periodic tick, a threshold was met on the queue as it stood at that check (including the send just
+    made, without the send just cancelled); (iii) a tick of the running looping call with no batch in
+    flight, not stopped, takes a non-empty queue; (iv) the queue is never taken once stopped. -/
+theorem C19_dispatch_iff (cfg : Cfg) (evs : List Ev) : dispatchIff cfg (traceOf cfg evs) = true :=
+  dispatchIff_model cfg evs
+
+/-- Wait bound (time limit) — in model time.  `tick` is an input event of the model; WHEN the looping call
+    ticks is an assumption on the environment, `Afkak.Monitor.C19.scheduleFrom` (Twisted's `LoopingCall`
+    over the reactor clock: calls at `start + k·T`, a late call is made once and the missed multiples are
+    skipped, nothing else runs while a call is overdue; `_send_batch` returns `None`, so the looping call
+    never waits on a Deferred of its callee) - checked on every trace of the real Producer as monitor
+    `c19-schedule`.
+    From any reachable state (`pre` arbitrary) with NO BATCH IN FLIGHT, the looping call running and due
+    within one period (`due ≤ now + T`): if the trace that follows obeys the schedule, then at any event -
+    other than a timer firing - that comes more than `T` later, no send that was queued is still queued:
+    it was dispatched (by the tick or by a threshold), or cancelled.  It never returns to the queue. -/
+theorem C19_wait_bound (cfg : Cfg) (T : Rat) (pre evs : List Ev) (e : Ev) (rest : List Ev) (now due : Rat)
+    (hidle : (run cfg (St.init cfg) pre).1.phase = .idle) (hl : (run cfg (St.init cfg) pre).1.looper = true)
+    (hs : (run cfg (St.init cfg) pre).1.stopping = false) (hdue : due ≤ now + T)
+    (hsched : scheduleFrom T now due true (traceFrom cfg (run cfg (St.init cfg) pre).1 (evs ++ e :: rest)) = true)
+    (he : notTT e)
+    (hlate : now + T < (clockFrom T now due (traceFrom cfg (run cfg (St.init cfg) pre).1 evs)).1) :
+    ∀ sid ∈ queued (run cfg (St.init cfg) pre).1, sid ∉ queued (run cfg (run cfg (St.init cfg) pre).1 evs).1 :=
+  wait_bound_scheduled cfg T _ (reach_run cfg pre _ (reach_init cfg)) hidle hl hs now due hdue evs e rest hsched he hlate
+
+/-- … the same without the schedule assumption, in terms of the clock alone: more than one period has
+    passed and the looping call is not overdue (the reactor has run what was due). -/
+theorem C19_wait_bound_clock (cfg : Cfg) (T : Rat) (pre evs : List Ev) (now due : Rat)
+    (hidle : (run cfg (St.init cfg) pre).1.phase = .idle) (hl : (run cfg (St.init cfg) pre).1.looper = true)
+    (hs : (run cfg (St.init cfg) pre).1.stopping = false) (hdue : due ≤ now + T)
+    (hlate : now + T < (clockFrom T now due (traceFrom cfg (run cfg (St.init cfg) pre).1 evs)).1)
+    (hsettled : ¬ ((run cfg (run cfg (St.init cfg) pre).1 evs).1.looper = true ∧
+      (clockFrom T now due (traceFrom cfg (run cfg (St.init cfg) pre).1 evs)).2 ≤
+        (clockFrom T now due (traceFrom cfg (run cfg (St.init cfg) pre).1 evs)).1)) :
+    ∀ sid ∈ queued (run cfg (St.init cfg) pre).1, sid ∉ queued (run cfg (run cfg (St.init cfg) pre).1 evs).1 :=
+  wait_bound cfg T _ (reach_run cfg pre _ (reach_init cfg)) hidle hl hs now due hdue evs hlate hsettled
+
+/-- Cancellation — trace level, for EVERY event list.  Cancelling a QUEUED send: it has never been in a
+    request and never will be (checked at every later produce request), its Deferred fires
+    `CancelledError(request_sent=False)` and nothing else happens, and it leaves `_batch_reqs`, both
+    counters (by exactly its message count and byte length) and `_outstanding` at once.  Cancelling a send
+    that was already dispatched only detaches the caller: its Deferred fires `CancelledError`
+    (`request_sent` telling whether a batch is in flight), it leaves `_outstanding`, and nothing else
+    changes - no request is cancelled, the batch goes on.  Cancelling a fired (or unknown) send does
+    nothing. -/
+theorem C19_cancel (cfg : Cfg) (evs : List Ev) : Afkak.Monitor.C19.cancel cfg (traceOf cfg evs) = true :=
+  cancel_model cfg evs
+
+/-- … and after a late cancel the batch still resolves everyone else: on traces that contain a cancel of a
+    dispatched send, whenever no batch is in flight everything outstanding is still queued (C01's
+    exactly-once check), given the client's accounting (C07). -/
+theorem C19_cancel_later_detaches (cfg : Cfg) (evs : List Ev) : detach cfg (traceOf cfg evs) = true :=
+  detach_model cfg evs
+
+/-- Stop — trace level, for EVERY event list: when an (enabled) `stop()` returns, `_outstanding` is empty
+    and every Deferred that was outstanding has fired inside it; the looping call is stopped; the queue is
+    empty; if the client's answer to the cancel of the in-flight produce request is one of its cancel
+    outcomes (still pending, failed payloads, a KafkaError, CancelledError) every Deferred fired in
+    `stop()` failed with a CANCELLATION error - or truthfully succeeded with the acknowledgement that
+    answer still carried (C01 checks those); and nothing is transmitted (no produce request, no metadata
+    request) in `stop()` or in any later step. -/
+theorem C19_stop (cfg : Cfg) (evs : List Ev) : Afkak.Monitor.C19.stop cfg (traceOf cfg evs) = true :=
+  stop_model cfg evs
 
 /-- … as a state invariant (what the trace monitor reads off the snapshots). -/
 theorem C19_accounting_state (cfg : Cfg) (evs : List Ev) :
@@ -92,6 +162,19 @@ example : ((traceOf exCfg [.send 0 0 none [some 3, none], .send 1 1 none [some 5
     (fun s => (s.post.queue, s.post.msgCount, s.post.byteCount))) = [([0], 2, 3), ([0, 1], 3, 8), ([1], 1, 5)] := by
   decide +kernel
 
+/-! Non-vacuity of the wait bound: a timed producer (`batch_every_t = 1`, thresholds out of reach); a send waits
+for the tick; the trace obeys the schedule (also with a late tick: the clock jumps to 5/2, one call, next due 3). -/
+def exCfgT : Cfg := Cfg.ofArgs 1 3 (1/4) true 100 10000 (some 1) false
+def exEvsT : List Ev :=
+  [.metaSet 0 0 (some [0]), .send 0 0 none [some 3], .advance (1/2), .send 1 0 none [some 2], .advance (1/2), .tick,
+   .produceDone 0 (.responses [⟨⟨0, 0⟩, 0, 7⟩]), .send 2 0 none [some 1], .advance (3/2), .tick]
+example : schedule exCfgT (traceOf exCfgT exEvsT) = true := by decide +kernel
+example : (traceOf exCfgT exEvsT).map (·.post.queue) = [[], [0], [0], [0, 1], [0, 1], [], [], [2], [2], []] := by
+  decide +kernel
+example : clockFrom 1 0 1 (traceOf exCfgT exEvsT) = (5/2, 3) := by decide +kernel
+/-- a tick that is not due breaks the schedule -/
+example : schedule exCfgT (traceOf exCfgT [.send 0 0 none [some 3], .advance (1/2), .tick]) = false := by decide +kernel
+
 end Afkak.Props.C19
 
 /- OBLIGATIONS
@@ -101,11 +184,12 @@ C19_cancel_before_dispatch_never_sent
 C19_stop_transmits_nothing
 C19_stop_fires_all
 C19_outstanding_nodup
--/
-/- OPEN_STATEMENTS
-C19_dispatch_iff
 C19_cancel
 C19_cancel_later_detaches
 C19_stop
+C19_dispatch_iff
 C19_wait_bound
+C19_wait_bound_clock
+-/
+/- OPEN_STATEMENTS
 -/
